@@ -200,6 +200,14 @@ def run(chk):
     items.append({"sql": "create table s.t as select a from s.src; insert into s.t (a, b, c, d, e) select a, b, c, d, e from s.src; "
                          "insert into s.t select p, q, r, w, v from s.c",
                   "dialect": "ansi", "metadata": {"s.src": ["a", "b", "c", "d", "e"], "s.c": ["p", "q", "r", "w", "v"]}, "origin": "pinned"})
+    # quoted identifiers that contain another quote character next to their own quotes (the normaliser strips quote characters one
+    # kind after the other: the result must not depend on the order a set of them is walked in)
+    for dia, outer, inners in [("ansi", '"', ["'", "`"]), ("mysql", "`", ['"', "'"]), ("bigquery", "`", ['"', "'"]), ("sparksql", "`", ['"', "'"])]:
+        for inner in inners:
+            for shape in ("%sx%s", "%sx", "x%s"):
+                name = outer + (shape % ((inner, inner) if shape.count("%s") == 2 else (inner,))) + outer
+                items.append({"sql": "insert into tgt select %s from %s" % (name.replace("x", "c"), name), "dialect": dia, "metadata": None, "origin": "pinned"})
+                items.append({"sql": "create table %s as select a from src; insert into tgt select a from %s" % (name, name), "dialect": dia, "metadata": None, "origin": "pinned"})
     items += inputs.script_items(chk, 300 if quick else 3000, chk.seed + 2)
     if quick:
         pinned = [x for x in items if x.get("origin") == "pinned"]
